@@ -7,11 +7,53 @@ import MTVerif.Model.TdSize
 import MTVerif.Model.Witness
 import MTVerif.Model.Rewrite
 import MTVerif.Model.Trigger
+import MTVerif.Model.GetStub
 namespace MT
 open Sexp
 
 structure DState where
   hier : List (ClassId × List ClassId × List ClassId) := []   -- class, direct bases, mro
+  clsNames : List (ClassId × String × String) := []
+  funcNames : List (FuncId × String × String) := []
+  envTab : List ((String × String) × Obj) := []
+
+def DState.names (st : DState) : Names where
+  cls c := match st.clsNames.lookup c with | some mq => mq | none => ("?", s!"c{c}")
+  func f := match st.funcNames.lookup f with | some mq => mq | none => ("?", s!"f{f}")
+
+def DState.env (st : DState) : Env where
+  lookup m q := (st.envTab.find? (fun e => e.1.1 == m && e.1.2 == q)).map (·.2)
+
+def tyResult (r : Except PyErr Ty) : Sexp :=
+  match r with
+  | .ok t => .list [.atom "ok", sexpOfTy t]
+  | .error e => .list [.atom "err", sexpOfErr e]
+
+def namedOf (xs : List Sexp) : Except String (List (Nat × String × String)) :=
+  xs.mapM (fun x => match x with
+    | .list [c, m, q] => do .ok (← natOf c, ← strOf m, ← strOf q)
+    | _ => .error "bad name entry")
+
+def traceOf : Sexp → Except String Trace
+  | .list [.atom "trace", f, .list args, ret, yld] => do
+      let opt (s : Sexp) : Except String (Option Ty) := match s with | .atom "none" => .ok none | s => (tyOf s).map some
+      .ok { func := ← natOf f, args := ← args.mapM fieldOf, ret := ← opt ret, yld := ← opt yld }
+  | s => .error s!"bad trace: {s}"
+
+def sexpOfOptJ : Option Json → Sexp | none => .atom "NULL" | some j => sexpOfJson j
+def optJOf : Sexp → Except String (Option Json) | .atom "NULL" => .ok none | s => (jsonOf s).map some
+
+def sexpOfRow (r : Row) : Sexp :=
+  .list [.atom "row", .str r.module, .str r.qualname, sexpOfJson r.argTypes, sexpOfOptJ r.returnType, sexpOfOptJ r.yieldType]
+
+def rowOf : Sexp → Except String Row
+  | .list [.atom "row", m, q, a, r, y] => do
+      .ok { module := ← strOf m, qualname := ← strOf q, argTypes := ← jsonOf a, returnType := ← optJOf r, yieldType := ← optJOf y }
+  | s => .error s!"bad row: {s}"
+
+def sexpOfTrace (t : Trace) : Sexp :=
+  let opt (o : Option Ty) : Sexp := match o with | none => .atom "none" | some t => sexpOfTy t
+  .list [.atom "trace", .atom (toString t.func), .list (t.args.map sexpOfField), opt t.ret, opt t.yld]
 
 def DState.H (st : DState) : Hier where
   mro c := match st.hier.lookup c with | some (_, m) => m | none => [c, objectC]
@@ -57,6 +99,32 @@ def handle (st : DState) (req : Sexp) : Except String (DState × Sexp) :=
       .ok (st, sexpOfTy (mkUnion (← ts.mapM tyOf)))
   | .list [.atom "rewrite", .list rs, t] => do
       .ok (st, sexpOfTy (rewriteChain st.H (← rs.mapM rwOf) (← tyOf t)))
+  | .list [.atom "names", .list (.atom "cls" :: cs), .list (.atom "func" :: fs)] => do
+      .ok ({ st with clsNames := ← namedOf cs, funcNames := ← namedOf fs }, .atom "ok")
+  | .list (.atom "env" :: es) => do
+      let tab ← es.mapM (fun e => match e with
+        | .list [m, q, o] => do .ok ((← strOf m, ← strOf q), ← objOf o)
+        | _ => .error "bad env entry")
+      .ok ({ st with envTab := tab }, .atom "ok")
+  | .list [.atom "encode", t] => do
+      .ok (st, sexpOfJson (encodeTy st.names (← tyOf t)))
+  | .list [.atom "decode", j] => do
+      .ok (st, tyResult (decodeTy st.env (← jsonOf j)))
+  | .list [.atom "rowOfTrace", t] => do
+      .ok (st, sexpOfRow (rowOfTrace st.names (← traceOf t)))
+  | .list [.atom "traceOfRow", r] => do
+      .ok (st, match traceOfRow st.env (← rowOf r) with
+        | .ok t => .list [.atom "ok", sexpOfTrace t]
+        | .error e => .list [.atom "err", sexpOfErr e])
+  | .list (.atom "getStub" :: v :: rows) => do
+      let rs ← rows.mapM rowOf
+      .ok (st, match getStub st.env (v == .atom "true") rs with
+        | .error e => .list [.atom "crash", sexpOfErr e]
+        | .ok o => .list [.atom "ok", .atom (toString o.traces.length), .atom (toString o.exitCode),
+            .list (o.stderr.map (fun l => match l with
+              | .warning e => .list [.atom "warning", sexpOfErr e]
+              | .summary n => .list [.atom "summary", .atom (toString n)]
+              | .noTraces => .atom "noTraces"))])
   | .list [.atom "trig", r, t] => do
       .ok (st, sexpOfBool ((← tyOf t).trig (← rwOf r)))
   | .list [.atom "normal", t] => do
